@@ -42,7 +42,8 @@ def long_cases(tier):
 
 
 def run(tier, seed, agg):
-    ccheck.run_cases(cfgs(tier), agg, seed)
+    # history-only events: now and then a consumer asks for a time behind its previous request; where the slot refuses that, nothing may change
+    ccheck.run_cases([dict(c, back_requests=True) for c in cfgs(tier)], agg, seed)
     from core.pool import pmap
 
     for r in pmap(ccheck.run_case, long_cases(tier)):
